@@ -85,6 +85,12 @@ elab "fun_arg_intro " f:ident D:ident hD:ident : tactic => withMainContext do
   let x ← Term.exprToSyntax e.appArg!
   evalTactic (← `(tactic| generalize $hD : $x = $D at *))
 
+/-- equality of two spellings of the same field expression (also inside `/`, `|·|`, structures): syntactic, or after
+`ring_nf` — keeps the bridging lemmas robust against harmless rewrites of the C++ (reordered products, hoisted terms) -/
+macro "ac_rfl_nf" : tactic => `(tactic| first | rfl | ring_nf)
+/-- use a hypothesis up to such respelling (hypothesis and goal are normalised in ONE `ring_nf` call so that the atom order agrees) -/
+macro "ac_exact " h:ident : tactic => `(tactic| first | exact $h | (revert $h:ident; (ring_nf) <;> exact id))
+
 variable {α : Type} [Field α] [LinearOrder α] [IsStrictOrderedRing α]
 
 theorem sabs_eq_abs (x : α) : sabs x = |x| := by
